@@ -15,6 +15,10 @@ class VariableBoundMaxPropagator(VariableBoundPropagator):
         raise NotImplementedError("max")
         
     def propagate(self):
+        if len(self.target.domain.range_l) == 0:
+            # The domain is already empty (the constraints are
+            # unsatisfiable). There is nothing left to trim
+            return False
         # Obtain the max value from the
         max_v = self.max()
   
